@@ -256,6 +256,10 @@ static void nv_guard(int seconds, const char *slug, const char *fmt, ...)
 	va_start(ap, fmt);
 	vsnprintf(nv_guard_desc, sizeof(nv_guard_desc), fmt, ap);
 	va_end(ap);
+	/* the quick tier works in smaller portions: a quarter of the horizon, so that a hang is reported well
+	 * inside the tier's time limit */
+	if (!nv_thorough)
+		seconds = (seconds + 3) / 4;
 	alarm(seconds);
 }
 
